@@ -453,7 +453,7 @@ def pushes(prog, rep, tag):
         ok = m is not None
         if ok:
             # one side is the data's length, and the slice written ends at that very value
-            sides = [pr.of_operand(x) for x in m]
+            sides = [frozenset([("call", x["callval"].name)]) if "callval" in x else pr.of_operand(x) for x in m]
             ok = any(any(r[0] == "call" and (r[1].endswith("::packed_len") or r[1].endswith("::len")) for r in sd) for sd in sides)
             ends = []
             for bi_, si_, st_ in q.aggregates(b, None):
